@@ -678,7 +678,7 @@ pub fn conv_full_sweep(shipped: &[Entry], fixed: &[i128], known: Known, st: &mut
     let mut prev_t: Option<i128> = None;
     for &(ts, dat) in shipped {
         let t = ts as i128 * NS_PER_S;
-        for k in -40i128..=40 {
+        for k in -100i128..=100 {
             utc.push(t + k * NS_PER_S);
         }
         for d in [
@@ -698,7 +698,7 @@ pub fn conv_full_sweep(shipped: &[Entry], fixed: &[i128], known: Known, st: &mut
             utc.push(p + (t - p) / 4 * 3 + 999_999_999);
         }
         prev_t = Some(t);
-        for k in -3i128..=(dat as i128 + 3) {
+        for k in -90i128..=90 {
             tai.push(t + k * NS_PER_S);
             tai.push(t + k * NS_PER_S + 500_000_000);
         }
